@@ -46,16 +46,27 @@ def cut_stream(r, msgs, style):
     first_byte = [chunk_of(s) for s in starts]
     first_line = [chunk_of(s + m.index(b'\n')) for s, m in zip(starts, msgs)]
     last_byte = [chunk_of(s + len(m) - 1) for s, m in zip(starts, msgs)]
-    return chunks, first_byte, first_line, last_byte
+
+    def body_start(m):
+        # offset of the first body byte of a message (end of the header block), or None when the message has no body bytes on the wire
+        e = [x for x in (m.find(b'\r\n\r\n') + 4 if b'\r\n\r\n' in m else -1, m.find(b'\n\n') + 2 if b'\n\n' in m else -1) if x > 0]
+        return min(e) if e and min(e) < len(m) - 1 else None
+    early = [chunk_of(s + body_start(m)) if body_start(m) is not None else lb for s, m, lb in zip(starts, msgs, last_byte)]
+    return chunks, first_byte, first_line, last_byte, early
 
 
-def make_history(ex, r):
+def make_history(ex, r, early=False):
     n = ex['n']
     rstyle = r.pick(['whole', 'random', 'random', 'coalesced', 'bytes'])
     sstyle = r.pick(['whole', 'random', 'random', 'coalesced', 'bytes'])
-    rc, rfb, rfl, rlb = cut_stream(r, [x[0] for x in ex['reqs']], rstyle)
-    sc, sfb, sfl, slb = cut_stream(r, [x[0] for x in ex['ress']], sstyle)
+    rc, rfb, rfl, rlb, rearly = cut_stream(r, [x[0] for x in ex['reqs']], rstyle)
+    sc, sfb, sfl, slb, _ = cut_stream(r, [x[0] for x in ex['ress']], sstyle)
     mode = r.pick(['eager_res', 'eager_req', 'random', 'random'])
+    if early:
+        # early answers: a response may be offered as soon as the head and at least the first body byte of its request have been offered
+        # (a server that answers an upload before it has read all of it); the request data still comes before the response
+        rlb = rearly
+        mode = r.pick(['eager_res', 'random'])
     ops = []
     ri = si = 0
     req_time = {}   # chunk index -> op index at which it was offered
@@ -97,7 +108,7 @@ def make_history(ex, r):
                 if begun < j:
                     flag = True
             readings.add(flag)
-    return ops, readings, (rstyle, sstyle, mode)
+    return ops, readings, (rstyle, sstyle, mode + ('+early' if early else ''))
 
 
 def shard(args):
@@ -125,7 +136,7 @@ def shard(args):
             ex['reqs'].append((rq, dict(headers=[['Host', 'h', False], ['Connection', 'Upgrade', False], ['Upgrade', proto, False]])))
             ex['ress'].append((rs, dict(id='%d-%s' % (k, nonce), status=101, body=b'', headers=[['X-Id', '%d-%s' % (k, nonce), False], ['Upgrade', proto, False], ['Connection', 'Upgrade', False]])))
             ex['n'] = k + 1
-        ops, readings, style = make_history(ex, r)
+        ops, readings, style = make_history(ex, r, early=(i % 16 in (2, 10) and not opts.get('expect_4xx')))
         cfg = {'PERSONALITY': r.randrange(10), 'URLENC_PARSER': r.randrange(2), 'DUMP': hxb.DUMP_TX, 'AUTO_DESTROY': 0,
                'DESTROY_DONE': 1 if r.chance(0.2) else 0, 'MAX_TX': r.pick([-1, -1, 512, 100])}
         cases.append((i, cfg, ops))
